@@ -1,5 +1,5 @@
 """property id -> clauses (rule functions) + the honest remainder.  Single source for MANIFEST.json."""
-from . import r2, r3, r4, r5check, r6, r7, r8, r9, r10
+from . import r1, r2, r3, r4, r5check, r6, r7, r8, r9, r10
 
 
 def fam(*names):
@@ -91,7 +91,7 @@ PROPS = {
         "technique": T_R3,
     },
     "C06": {
-        "clauses": [both(r3.check_radix), r7.check_bases, r7.check_formatters, r9.check_sign_readers],
+        "clauses": [both(r3.check_radix), r7.check_bases, r7.check_formatters, r9.check_sign_readers, r1.check_biguint_normal_form],
         "not_decided": "bit-regrouping and chunked Horner/division arithmetic, the accept/reject language of the digit classifier, padding (delegated to core::fmt)",
         "level_text": "Decides: all 14 radix-taking entry points (7 per type) enforce their documented range - 2..=36 for text, 2..=256 for digit vectors - by a non-debug "
         "assertion of their own or of the callee they forward the radix to, constants read from the MIR comparison operands, in dev and release builds; "
@@ -107,14 +107,14 @@ PROPS = {
         "technique": T_R3 + "; " + T_R2,
     },
     "C04": {
-        "clauses": [r9.check_eq_ord_hash, r9.check_sign_readers, r5check.check_helpers, r5check.check_constructors, r5check.check_shifts],
+        "clauses": [r1.check_closed_world, r1.check_biguint_normal_form, r1.check_normalize_body, r9.check_eq_ord_hash, r9.check_sign_readers, r5check.check_helpers, r5check.check_constructors, r5check.check_shifts],
         "not_decided": "canonical form at every exported boundary (planned R1 typestate); cmp_slice's most-significant-first iteration order",
         "level_text": "Decides (release code only, debug assertions excluded): Eq/Ord/Hash of BigInt read sign and magnitude of every operand, of BigUint the digit vector; Hash reads "
         "only components that Eq compares; cmp_slice consults both lengths and both contents; sign-dependent exporters read the sign.",
         "technique": "interprocedural field read-set analysis over MIR (necessity rule: a result that depends on a component must read it)",
     },
     "C09": {
-        "clauses": [r9.check_iterators, r9.check_sign_readers, r5check.check_constructors],
+        "clauses": [r9.check_iterators, r9.check_sign_readers, r5check.check_constructors, r1.check_biguint_normal_form],
         "not_decided": "byte regrouping arithmetic, two's-complement byte loops, iterator value sequences beyond the read-set condition; importer normalisation (planned R1)",
         "level_text": "Decides: every U32Digits cursor method (next, next_back, len, last, count, size_hint) consults all three cursor fields, directly or through the cursor methods "
         "it calls (the rule that exposed the U32Digits::last defect); U64Digits methods delegate to the slice iterator; signed-byte exporters read the sign.",
@@ -194,7 +194,7 @@ PROPS = {
         "technique": "type checking of the 10-configuration matrix; canonical MIR fingerprints across 4 fact configurations; cfg-taint (cross-config line diff + forward dataflow); dev-vs-release inventory",
     },
     "C17": {
-        "clauses": [r7.check_serde_tables, r6.check_feature_stability],
+        "clauses": [r7.check_serde_tables, r6.check_feature_stability, r1.check_biguint_normal_form],
         "not_decided": "the u64 -> (lo, hi) split arithmetic and pair re-join; canonicalisation of deserialised digits (planned R1)",
         "level_text": "Decides: Sign serialises as the i8 -1/0/1 and deserialises by the inverse table with an Err arm for every other byte (switch targets and promoted "
         "constants read from MIR); BigInt <-> the pair (sign, magnitude) in this order, rebuilt through the canonicalising from_biguint; pre-allocation from "
